@@ -2,7 +2,7 @@
     Parametric in the expansion function (no idempotence assumed, which is what
     makes "exactly once" meaningful). Field scope: Tie/TieScope.v. *)
 From Coq Require Import String List Ascii Bool Arith Permutation.
-From GP Require Import Model.Gv Model.Pipeline Model.Interp Proofs.InterpProofs.
+From GP Require Import Model.Gv Model.Pipeline Model.Interp Proofs.InterpProofs Proofs.InterpPipelineProofs.
 Import ListNotations.
 Local Open Scope string_scope.
 
@@ -52,7 +52,46 @@ Section C04.
   Proof. exact (InterpProofs.interp_command_fields expand). Qed.
   Theorem interp_step_shape : forall s s', interp_step expand s = Some s' -> same_shape s s'.
   Proof. exact (InterpProofs.interp_step_shape expand). Qed.
+
+  (** THE WHOLE PIPELINE.  step_strings / pipeline_rest_strings (Proofs/InterpPipelineProofs.v) list every string
+      in scope - keys as well as values, at any depth, in every step kind and in unknown fields: command, label,
+      key, plugin sources and configs, env names and values, matrix (dimension names, values, adjustments with
+      their `with`, skip and unknown fields), cache (name, paths, size, unknown fields), group key and name, the
+      contents of wait / input / trigger steps, unknown steps, unknown fields of every level; NOT the signatures. *)
+
+  (** errors are reported: the call fails exactly when some string in scope fails to expand *)
+  Theorem interp_step_ok_iff : forall s,
+    interp_step expand s <> None <-> (forall str, In str (step_strings s) -> expand str <> None).
+  Proof. exact (InterpPipelineProofs.interp_step_ok_iff expand). Qed.
+  Theorem interp_pipeline_rest_ok_iff : forall p,
+    interp_pipeline_rest expand p <> None <-> (forall str, In str (pipeline_rest_strings p) -> expand str <> None).
+  Proof. exact (InterpPipelineProofs.interp_pipeline_rest_ok_iff expand). Qed.
+
+  (** EXACTLY ONCE, everywhere: the strings of the result are the single expansions of the strings of the input
+      (as multisets), when no two keys of one mapping expand onto each other *)
+  Theorem interp_step_strings : forall s s',
+    interp_step expand s = Some s' -> step_no_collision expand s ->
+    Permutation (step_strings s') (map (ex expand) (step_strings s)).
+  Proof. exact (InterpPipelineProofs.interp_step_strings expand). Qed.
+  Theorem interp_pipeline_rest_strings : forall p p',
+    interp_pipeline_rest expand p = Some p' -> pipeline_no_collision expand p ->
+    Permutation (pipeline_rest_strings p') (map (ex expand) (pipeline_rest_strings p)).
+  Proof. exact (InterpPipelineProofs.interp_pipeline_rest_strings expand). Qed.
+
+  (** the one exception: the signature of every command step, at every depth, is what it was *)
+  Theorem interp_step_sigs : forall s s', interp_step expand s = Some s' -> step_sigs s' = step_sigs s.
+  Proof. exact (InterpPipelineProofs.interp_step_sigs expand). Qed.
+  Theorem interp_pipeline_rest_sigs : forall p p',
+    interp_pipeline_rest expand p = Some p' -> pipeline_sigs p' = pipeline_sigs p.
+  Proof. exact (InterpPipelineProofs.interp_pipeline_rest_sigs expand). Qed.
 End C04.
+
+(** the side condition is needed: two env names that expand onto each other lose an entry *)
+Theorem env_collision_counterexample :
+  let s := SCommand (mkCmd "" "" "" [] [("$A", "1"); ("a", "2")] None None None []) in
+  exists s', interp_step demo_expand s = Some s' /\
+             ~ Permutation (step_strings s') (map (ex demo_expand) (step_strings s)).
+Proof. exact InterpPipelineProofs.env_collision_counterexample. Qed.
 
 (** the no-capture hypothesis is needed (a rename onto a later entry's name deletes that entry) *)
 Theorem omap_capture_counterexample :
@@ -70,3 +109,10 @@ Print Assumptions interp_command_sig.
 Print Assumptions interp_command_fields.
 Print Assumptions interp_step_shape.
 Print Assumptions omap_capture_counterexample.
+Print Assumptions interp_step_ok_iff.
+Print Assumptions interp_pipeline_rest_ok_iff.
+Print Assumptions interp_step_strings.
+Print Assumptions interp_pipeline_rest_strings.
+Print Assumptions interp_step_sigs.
+Print Assumptions interp_pipeline_rest_sigs.
+Print Assumptions env_collision_counterexample.
